@@ -194,6 +194,32 @@ def m_try_branch(ex, st, callee, args, dty, site):
     return out
 
 
+def m_try_branch_option(ex, st, callee, args, dty, site):
+    o = args[0]
+    if not isinstance(o, Node):
+        return NotImplemented
+    out = Node(ex.ctx.fresh_name("cf"), "ControlFlow")
+    d = Node(out.name + ".discr", "isize")
+    dv = ex.discr_of(o)
+    d.val = z3.If(dv == 1, z3.BitVecVal(0, 64), z3.BitVecVal(1, 64))   # Some -> Continue(0), None -> Break(1)
+    out.kids["discr"] = d
+    out.kids[("Continue", 0)] = ex.child(o, ("Some", 0), None).clone()
+    res = Node(out.name + ".residual", "Option<Infallible>")
+    rd = Node(res.name + ".discr", "isize")
+    rd.val = z3.BitVecVal(0, 64)
+    res.kids["discr"] = rd
+    out.kids[("Break", 0)] = res
+    return out
+
+
+def m_from_residual_option(ex, st, callee, args, dty, site):
+    out = Node(ex.ctx.fresh_name("residual_none"), "Option")
+    d = Node(out.name + ".discr", "isize")
+    d.val = z3.BitVecVal(0, 64)
+    out.kids["discr"] = d
+    return out
+
+
 def m_from_residual(ex, st, callee, args, dty, site):
     res = args[0]
     out = Node(ex.ctx.fresh_name("residual_result"), "Result")
@@ -236,6 +262,8 @@ SEQ_MODELS = [
     (r"^<Vec<u8> as (std::ops::)?IndexMut<usize>>::index_mut$", m_index),
     (r"^to_writer::<&mut Vec<u8>, .*>$", m_to_writer),
     (r"^<Result<.*> as Try>::branch$", m_try_branch),
+    (r"^<(std::option::)?Option<.*> as Try>::branch$", m_try_branch_option),
+    (r"^<(std::option::)?Option<.*> as FromResidual<(std::option::)?Option<Infallible>>>::from_residual$", m_from_residual_option),
     (r"^<Result<.*> as FromResidual<Result<Infallible, .*>>>::from_residual$", m_from_residual),
     (r"^std::string::String::from_utf8_unchecked$", M.m_identity),
     (r"^RawValue::from_string$", m_from_string),
